@@ -370,6 +370,11 @@ impl<'t> Interp<'t> {
         if fwd != back {
             self.viol("C10/list-asymmetric", "small_to_big() reversed != big_to_small()".into());
         }
+        if let Some((w, links)) = &t.walk {
+            if *w != fwd || *links != fwd {
+                self.viol("C10/list-asymmetric", format!("the chunk list walked from the current chunk (iter_prev/iter_next: {} chunks, prev()/next(): {} chunks) differs from small_to_big() ({} chunks)", w.len(), links.len(), fwd.len()));
+            }
+        }
         if t.count != t.chunks.len() {
             self.viol("C10/count", format!("count() {} != number of chunks {}", t.count, t.chunks.len()));
         }
